@@ -32,7 +32,7 @@ def gen(rng, tier, dist):
     n = 300 if tier == "quick" else 4000
     out = []
     for c in range(n):
-        opts = {"p_soft": 0.3 if rng.random() < 0.3 else 0.0, "p_sel": 0.8, "p_ptr": 0.7}
+        opts = {"p_soft": 0.6 if rng.random() < 0.5 else 0.0, "p_sel": 0.8, "p_ptr": 0.7}
         app = sc.gen_app(rng, opts)
         ref = sc.Ref(app)
         if not ref.flat:
@@ -173,5 +173,9 @@ TECHNIQUE = ("Coq proof about a code-shaped model of scan_deps (string surgery o
              "through ports without a line) and of the Kahn sort (queue seeded in file order, counters, dependees in map "
              "order) + differential correspondence of the hand-out order, return value and final state against "
              "rtosc::load_from_file for all permutations of real savefiles")
-LEVEL_TEXT = "see notes/C13.md"
+LEVEL_TEXT = ("The sort as coded is proved correct for ALL inputs: on acyclic (ranked) edges the fuel suffices, the hand-out order is a "
+              "permutation of the messages and respects every edge (C13_kahn, C13_topo over the edges scan_deps produces); two "
+              "dependency-respecting orders of the same lines give the same state and count when independent messages commute "
+              "(C13_linear_extensions_agree, C13_perm_invariant_partial). Open: same_edges, commutation for the abstract application, "
+              "C13_edges_complete (see notes/C13.md).")
 LEVEL_NOTE = "apropos (C18) and the metadata lookup (C17) enter the model as a function argument; the application semantics are C12's abstract application"
